@@ -2,7 +2,9 @@ ENTRY = {
     "C19": {
         "pkg": ".", "hdir": "dastard", "harness": DASTARD_COMMON + ["zz_verif_files_test.go", "zz_verif_c19_test.go"], "test": "TestVerifC19",
         "quick": T(16, 180), "thorough": T(16, 600),
-        "rule": "one execution = one source configuration (Lancero: active cards, columns, rows, FirstRow, ChanSepColumns, ChanSepCards; Abaco: set, arrival order and "
+        "rule": "one execution = one source configuration (Lancero: active cards, columns per card, rows, FirstRow, ChanSepColumns, ChanSepCards, with the geometry either written into the source or "
+                "- lancero-sampled, cards with unequal column counts - found by the real Configure and Sample/sampleCard in the streams of scripted cards, the number of data streams Sample reports "
+                "compared with the number the cards deliver whenever PrepareChannels does not reject; Abaco: set, arrival order and "
                 "producer assignment of channel groups; generic/Triangle/SimPulse/Roach: channel count) through the real PrepareChannels (Abaco: real Sample first) and "
                 "PrepareRun; names, numbers, groups and row/column codes compared with the geometry the harness configured, accepted Lancero separations re-checked "
                 "against an independent literal numbering, overlapping Abaco groups must be rejected; for small configurations of every source type the real WriteControl START / "
@@ -11,7 +13,11 @@ ENTRY = {
                 "stream's reported name, and the decoded LJH22 / LJH3 / OFF header (name, index, number, source, rows, columns, row, column, channel count, subframe fields, as far "
                 "as the format records them) and the one record in it must be those of that stream; "
                 "non-trivial = the configuration was accepted and has at least 2 streams",
-        "assumptions": ["Lancero geometry (devnum, columns, rows per card) is set directly because sampleCard needs hardware; RoachSource.nchan is set directly because samplePacket needs a UDP socket",
+        "assumptions": ["Lancero geometry (devnum, columns, rows per card) is set directly in family A and twice/lancero (this alone reaches one-row cards and cards with unequal row counts, which the real Sample rejects); "
+                        "in lancero-sampled and twice/lancero-sampled it comes from the real Configure (rows, line period, NSAMP from a cringeGlobals file) and the real Sample on scripted lancero.Lanceroer cards "
+                        "(sampleCard paces itself on the card's time stamps: 5 frames at 20 frames/s of card time, three driver reads, stream starting one word into a frame); "
+                        "RoachSource.nchan is set directly because samplePacket needs a UDP socket",
+                        "a multi-card Lancero source cannot run (the reader panics 'not yet implemented' at its first tick): its identity is checked on what Sample, PrepareChannels and PrepareRun set up, and in the files a START writes",
                         "Abaco packets come from fake PacketProducers built with the real packets constructors; all groups measure the same sample rate",
                         "true geometry of a multi-card Lancero stream = (row, column) within its own card and that card's rows x columns; of an Abaco stream = row within its group, "
                         "group position as column, group size as rows, number of groups as columns",
